@@ -239,14 +239,16 @@ def gen_history(r, index, e1_pool, family=None):
             models.append({"theta": list(U)})
         obs2 = r.sample(s["states"], r.randint(1, min(2, len(s["states"]))))
         specs.append(_obj_spec(r, s, other, r.randrange(4), obs=obs2))
-        ops += [C(0, e1, A, X), {"op": "new", "obj": 1}, C(0, e1, A, X, none=True), C(1, e2, B, Y), C(0, e1, A, X, none=True),
+        ops += [C(0, e1, A, X), {"op": "new", "obj": 1}, C(0, e1, A, X, none=True), C(1, e1, A, Y), C(0, e1, A, X, none=True), C(1, e2, B, Y), C(0, e1, A, X, none=True),
                 C(1, e2, B, Y, none=True), C(0, e1, A, X), C(1, rnd_fn(), U, X), C(0, rnd_fn(), A, Y), C(1, e2, B, Y, none=True),
                 C(0, e1, A, X, none=True)]
         ops += random_ops(r.randint(0, 3), [0, 1])
     elif family == "deepcopy":
         specs.append(dict(specs[0], model=1))          # the copy: same layout, its own model
+        # the user then re-parameterises the ORIGINAL's model: the copy has its own model and must not notice
+        setm = {"op": "set_model", "model": 0, "values": [[k_, U[s["params"].index(k_)]] for k_ in s["params"]], "form": "dict"}
         ops += [C(0, e1, A, X), {"op": "deepcopy", "src": 0, "obj": 1}, C(1, e1, A, X, none=True), C(1, e2, B, Y), C(0, e1, A, X, none=True),
-                C(1, e2, B, Y, none=True), C(0, e1, A, X), C(1, e1, B, Y, none=True)]
+                C(1, e2, B, Y, none=True), setm, C(1, e1, B, Y, none=True), C(0, e1, A, X, none=True), C(0, e1, A, X), C(1, e1, B, Y, none=True)]
         ops += random_ops(r.randint(0, 3), [0, 1])
     return {"kind": "history", "family": family, "setup": s, "points": pts, "models": models, "objects": specs, "ops": ops,
             "noise_seed": r.getrandbits(32), "pair": [e1, e2]}
